@@ -98,6 +98,17 @@ def dyadic_domains(rng):
     return doms
 
 
+def dyadic_domains_extreme():
+    """Tiny and huge dyadic domains (scale 2^-40 .. 2^30) whose midpoint is 0, comparable to, or much smaller than the
+    half-width: the offset == 0 test must be exact at every absolute magnitude."""
+    doms = []
+    for k in (-40, -30, -20, 20, 30):
+        scl = Fraction(2) ** k
+        for off in (Fraction(0), scl, -3 * scl / 4, scl / 1024, -5 * scl):
+            doms.append((off - scl, off + scl))
+    return doms
+
+
 # ------------------------------------------------------------------ correspondence
 def correspondence(ctx):
     U = impl_utils()
@@ -111,8 +122,9 @@ def correspondence(ctx):
         return np.array([float(lo), float(hi)])
 
     # --- T: the transformation matrix, orders 0..8, every domain (both branches)
+    ext = dyadic_domains_extreme()
     for n in range(1, 10):
-        for (lo, hi) in doms:
+        for (lo, hi) in doms + (ext if n in (2, 3, 5, 9) else []):
             ref = ref_transform(n, lo, hi)
             if not entries_exact(ref):
                 skipped += 1
@@ -134,13 +146,15 @@ def correspondence(ctx):
                          'diagonal (expected untouched +0.0)', {'kind': 'transform', 'n': n, 'lo': float(lo), 'hi': float(hi)})
             casesT.append((f'({n}%nat, {qlit(lo)}, {qlit(hi)}, {qlist(exp)})',
                            {'kind': 'transform', 'n': n, 'lo': float(lo), 'hi': float(hi)}))
-            ctx.case(('T', n, lo, hi), nontrivial=n >= 2, kind=f"T:{'offset0' if lo == -hi else 'offset'}")
+            ctx.case(('T', n, lo, hi), nontrivial=n >= 2, kind=f"T:{'offset0' if lo == -hi else 'offset'}{':extreme-scale' if (lo, hi) in ext else ''}")
 
     # --- C: _convert_coef with integer coefficients
     ncoef = ctx.n(150, 900)
     for c in range(ncoef):
         n = 1 + c % 9
         lo, hi = doms[int(rng.integers(len(doms)))] if c % 4 else doms[int(rng.integers(12))]
+        if c % 5 == 3:
+            lo, hi = ext[int(rng.integers(len(ext)))]
         d = [int(v) for v in rng.integers(-8, 9, n)]
         ref = ref_transform(n, lo, hi)
         if not entries_exact(ref) or not sums_exact([[ref[i][j] * d[j] for j in range(n)] for i in range(n)]):
@@ -383,7 +397,7 @@ TOL_A = 100.0
 TOL_B = 500.0
 
 
-def check_1d_call(ctx, st, name, kw, x, y, p, w, perm_kind, fit=None, history=None):
+def check_1d_call(ctx, st, name, kw, x, y, p, w, perm_kind, fit=None, history=None, exact=False):
     from pybaselines import Baseline
     tag = '' if fit is None else ':reused'
     lo, hi = float(x.min()), float(x.max())
@@ -436,7 +450,7 @@ def check_1d_call(ctx, st, name, kw, x, y, p, w, perm_kind, fit=None, history=No
     if not np.all(np.isfinite(c)):
         ctx.fail(f'coef:{name}:nonfinite{tag}', f'{name}: non-finite coefficient for a finite baseline', case)
         return None
-    ev = Pn.polyval(x, c)
+    ev = exact_polyval(c, x) if exact else Pn.polyval(x, c)
     bound = EPS * cond_bound(d, x, off, scl) + EPS * scale_b
     r = float(np.max(np.abs(ev - b) / bound))
     st.up(f'a:{name}', r)
@@ -609,6 +623,119 @@ def check_loess(ctx, st, rng, x, y, trial):
             break
     st.up('a:loess', worst)
 
+
+
+
+# ------------------------------------------------------------------ deterministic family of x (and z) domains
+EXTENTS = [1e-12, 1e-9, 1e-6, 1e-3, 1.0, 1e3, 1e6, 1e9, 1e12]
+# midpoint / half-width: 0, tiny, comparable (lo = 0 / hi = 0), asymmetric, huge relative to the extent; both signs
+MID_RATIOS = [0.0, 1e-9, -1e-9, 1e-6, -1e-6, 1e-3, -1e-3, 0.37, -0.37, 1.0, -1.0, 3.0, -3.0, 40.0, -40.0, 1e3, -1e3]
+
+
+def family_domains():
+    out = []
+    for e in EXTENTS:
+        for r in MID_RATIOS:
+            half = e / 2
+            out.append((half * r, half))
+    return out
+
+
+def exact_polyval(c, xs):
+    cs = [Fraction(float(v)) for v in c]
+    out = []
+    for xv in xs:
+        xv = Fraction(float(xv))
+        acc = Fraction(0)
+        for cv in reversed(cs):
+            acc = acc * xv + cv
+        out.append(float(acc))
+    return np.array(out)
+
+
+def exact_polyval2d(C, xs, zs):
+    C = np.asarray(C, dtype=float)
+    out = np.zeros((len(xs), len(zs)))
+    ZP = [[Fraction(float(z)) ** b for b in range(C.shape[1])] for z in zs]
+    for i, xv in enumerate(xs):
+        xv = Fraction(float(xv))
+        XP = [xv ** a for a in range(C.shape[0])]
+        for j in range(len(zs)):
+            out[i, j] = float(sum(Fraction(float(C[a, b])) * XP[a] * ZP[j][b] for a in range(C.shape[0]) for b in range(C.shape[1])))
+    return out
+
+
+def oracle_domain_family(ctx, st, rng_seed):
+    """Every polynomial method over a fixed grid of domains: extent 1e-12..1e12 x midpoint 0 / tiny / comparable / huge
+    relative to the extent / negative.  The returned coefficients are evaluated in EXACT rational arithmetic on the
+    user's x (so only the coefficients are judged, not a float Horner scheme) against the conditioning bound of the
+    mapped-domain fit."""
+    from pybaselines import Baseline2D
+    rng = np.random.default_rng(rng_seed)
+    doms = family_domains()
+    t0 = np.linspace(-1, 1, 31)
+    others = [('modpoly', {}), ('imodpoly', {}), ('quant_reg', {'max_iter': 10}), ('penalized_poly', {}),
+              ('goldindec', {'max_iter': 10, 'max_iter_2': 5}), ('dietrich', {'smooth_half_window': 2, 'max_iter': 3})]
+    for k, (mid, half) in enumerate(doms):
+        t = t0 if k % 2 == 0 else np.sort(np.concatenate([[-1.0, 1.0], rng.uniform(-1, 1, 29)]))
+        x = mid + half * t
+        if len(np.unique(x)) < x.size:
+            continue           # the extent is below the resolution of binary64 at this midpoint
+        y = make_y(rng, x)
+        p = [1, 2, 3, 5][k % 4] if abs(mid) <= 50 * half else [1, 2, 3][k % 3]
+        name, kw = ('poly', {}) if k % 3 else others[(k // 3) % len(others)]
+        if k % 7 == 3:
+            perm = rng.permutation(x.size)
+            x, y = x[perm], y[perm]
+        res = check_1d_call(ctx, st, name, kw, x, y, p, None, 0, exact=True)
+        ctx.case(('fam1', k, name, p), nontrivial=res is not None, kind=f'family1d:extent=1e{int(round(np.log10(2 * half)))}:{name}')
+    # 2-D: the x and z domains walk through the family independently
+    for k in range(0, len(doms), 3):
+        (mx, hx), (mz, hz) = doms[k], doms[(7 * k + 5) % len(doms)]
+        x = mx + hx * np.linspace(-1, 1, 9)
+        z = mz + hz * np.sort(np.concatenate([[-1.0, 1.0], rng.uniform(-1, 1, 5)]))
+        if len(np.unique(x)) < x.size or len(np.unique(z)) < z.size:
+            continue
+        tx, tz = mapped_ref(x, x.min(), x.max()), mapped_ref(z, z.min(), z.max())
+        Y = 3 + 2 * tx[:, None] - tz[None, :] + tx[:, None] * tz[None, :] + 4 * np.exp(-((tx[:, None]) ** 2 + tz[None, :] ** 2) / 0.05) \
+            + rng.normal(0, 0.05, (x.size, z.size))
+        px, pz = [(1, 1), (2, 1), (1, 2), (2, 2), (3, 2)][k % 5]
+        mc = [None, 1][k % 2]
+        name = ['poly', 'modpoly', 'imodpoly', 'quant_reg', 'penalized_poly'][(k // 3) % 5]
+        case = {'kind': 'oracle2d', 'method': name, 'kwargs': {}, 'poly_order': [px, pz], 'max_cross': mc, 'x': x.tolist(), 'z': z.tolist(),
+                'y': Y.tolist(), 'weights': None}
+        ctx.case(('fam2', k, name, px, pz, mc), nontrivial=True, kind=f'family2d:{name}')
+        try:
+            b, par = quiet(getattr(Baseline2D(x, z), name), Y, poly_order=(px, pz), return_coef=True, max_cross=mc)
+        except Exception as exc:
+            ctx.note(f'2-D {name} raised {type(exc).__name__} on a family domain: {str(exc)[:80]}')
+            continue
+        b, c = np.asarray(b, dtype=float), np.asarray(par.get('coef'), dtype=float)
+        if not np.all(np.isfinite(b)) or c.shape != (px + 1, pz + 1):
+            continue
+        if not np.all(np.isfinite(c)):
+            ctx.fail(f'coef2d:{name}:nonfinite', f'2-D {name}: non-finite coefficient for a finite baseline', case)
+            continue
+        keep = masked_cols(px, pz, mc)
+        A = (Pn.polyvander(tx, px)[:, None, :, None] * Pn.polyvander(tz, pz)[None, :, None, :]).reshape(x.size * z.size, -1)
+        d = np.zeros(A.shape[1])
+        d[keep] = np.linalg.lstsq(A[:, keep], b.ravel(), rcond=None)[0]
+        D = d.reshape(px + 1, pz + 1)
+        offx, sclx, offz, sclz = (x.min() + x.max()) / 2, (x.max() - x.min()) / 2, (z.min() + z.max()) / 2, (z.max() - z.min()) / 2
+        X, Z = np.meshgrid(x, z, indexing='ij')
+        rx, rz = (np.abs(X) + abs(offx)) / abs(sclx), (np.abs(Z) + abs(offz)) / abs(sclz)
+        bound = np.zeros_like(X)
+        for a in range(px + 1):
+            for bb in range(pz + 1):
+                bound = bound + abs(D[a, bb]) * rx ** a * rz ** bb
+        bound = EPS * bound + EPS * max(float(np.abs(b).max()), 1e-300)
+        ev = exact_polyval2d(c, x, z)
+        r = float(np.max(np.abs(ev - b) / bound))
+        st.up(f'a2:{name}', r)
+        if r > TOL_A:
+            ctx.fail(f'coef2d:{name}', f'2-D {name}: params["coef"] evaluated exactly on (x, z) differs from the returned baseline by '
+                     f'{float(np.max(np.abs(ev - b))):.3g} ({r:.3g} x eps x conditioning bound; x domain midpoint {offx:.3g} half-width {sclx:.3g}, '
+                     f'z domain midpoint {offz:.3g} half-width {sclz:.3g}, orders {px},{pz}, max_cross {mc})', case)
 
 
 # ------------------------------------------------------------------ conditioning stress with an exact certificate
@@ -982,13 +1109,15 @@ def probe_lower_triangle(ctx):
 
 # ------------------------------------------------------------------ entry points
 def run(ctx):
-    ctx.rule = ('correspondence: transform matrices for 1..9 coefficients x 72 dyadic domains (offset 0 and non-zero, scale 1/4..8), '
+    ctx.rule = ('correspondence: transform matrices for 1..9 coefficients x 72 dyadic domains (offset 0 and non-zero, scale 1/4..8) plus 25 dyadic domains of scale 2^-40..2^30 with midpoint 0 / '
+                'comparable / 1000x smaller than the half-width, '
                 '_convert_coef / _convert_coef2d with integer coefficients, 1-D and 2-D Vandermonde (max_cross None/0/1/2) -- all compared as '
                 'exact rationals; oracle: x domains with offset 0, +-1e-3..+-1e6 and scale 1e-6..1e6 (sorted, shuffled, reversed, strictly '
                 'negative), orders 0..8, weights none/random with zeros, every 1-D polynomial method incl. all six penalized_poly cost functions, '
                 'loess coefficient rows, dietrich, and the five 2-D methods with order pairs 0..3 and max_cross None/0/1/2; '
                 'the same checks on every call of 2-4 (1-D) / 9 (2-D) call sequences on ONE shared Baseline / Baseline2D object with orders going up and down, '
-                'unweighted and weighted calls and mixed methods; conditioning stress for poly (orders 6..13, weights over up to 20 decades: log-uniform, '
+                'unweighted and weighted calls and mixed methods; a fixed family of 153 x-domains (and z-domains in 2-D): extent 1e-12..1e12 x midpoint/half-width 0, +-1e-9..+-1e3, evaluated in exact '
+                'rational arithmetic; conditioning stress for poly (orders 6..13, weights over up to 20 decades: log-uniform, '
                 'inverse-variance, exponential ramp, few trusted points; class / functional / reused-object entry paths; 2-D orders up to (4,3)) judged by an '
                 'exact rational residual-orthogonality certificate against eps*cond(sqrt(w) V); non-trivial = order >= 1 and a finite returned baseline')
     ctx.trusted += [
@@ -1011,6 +1140,7 @@ def run(ctx):
     budget = (1 if ctx.tier == 'quick' else 48) if (ok and not bad and not ctx.broken) else (6 if ctx.tier == 'quick' else 48)
     probe_lower_triangle(ctx)
     oracle_1d(ctx, st, budget)
+    oracle_domain_family(ctx, st, ctx.seed + 86)
     oracle_seq_1d(ctx, st, budget)
     oracle_stress(ctx, st, min(budget, 12))
     oracle_2d(ctx, st, budget)
